@@ -188,6 +188,18 @@ func (d *driver) newObject(a newArgs) (status string, size int) {
 	return
 }
 
+// allocRaw gives the driver object memory of the right size for kind, filled
+// but never initialised.
+func (d *driver) allocRaw(kind, fill int, seed uint32, dstCap int) int {
+	d.w8('A')
+	d.w32(uint32(kind))
+	d.w32(uint32(fill))
+	d.w32(seed)
+	d.w32(uint32(dstCap))
+	d.flush('A')
+	return int(d.r32())
+}
+
 type callArgs struct {
 	src      []byte // whole source buffer handed to the callee
 	srcRi    int    // initial read index (bytes before it were consumed earlier)
